@@ -9,8 +9,11 @@
      ConcatenatedPropertyGroup.{depth_, remove_properties} + PropertyGroup.{add,remove}_properties (property_group.py)
      ConcatenatedDrillhole.{validate_data, validate_depth_data} / Drillhole.add_data              (drillhole.py)
      NumericData.values setter / format_length                                                   (numeric_data.py)
-   in the regime driven by tools/props/c04.py: depth tables only, property groups addressed by name,
-   depth arrays of different groups of one hole on disjoint integer ranges.
+     Workspace.remove_entity (concatenated entities go through parent.remove_children)         (workspace.py)
+   in the regime driven by tools/props/c04.py: depth tables only, property groups addressed by name.
+   The model follows /repo including the repairs 8a1b56f (hole removal deletes the hole's own rows), c8cb1ac (removal through
+   the workspace = removal through the parent), 63969e8 (free DEPTH(k) name), ed8ec63 (add_data honours the named group);
+   the rename defects are transcribed as they are (Rename only rewrites the record's Name).
 
    Numbering: labels 0 Surveys, 1 Trace, 2 Property Group IDs, 10+k "DEPTH"/"DEPTH(k)", 100+j data name "d<j>";
    entity ids are positive naturals chosen by the case (0 = null uuid).                                        *)
